@@ -428,7 +428,8 @@ def pred_c08(prog, ob):
     """no frame is entered whose guard, evaluated independently at the moment of the attempt, is false; a
     refused transition logs nothing and leaves outline, elapsed and recurred as they were"""
     fms = _fms(prog)
-    for e in ob.get("oracle", []):
+    orc = ob.get("oracle", [])
+    for i, e in enumerate(orc):
         if e[0] == "transit" and e[8] is not None:
             _, tk, fm, near, far, S, nk, p0, p1, taken, aft = e[:11]
             actives = S[fm][1]
@@ -444,10 +445,21 @@ def pred_c08(prog, ob):
                 if acted:
                     return ("refused-transition-acted", "tick %d: refused transition %s -> %s of %s ran actions %s"
                             % (tk, near, far, fm, acted[:4]))
-                if aft != [actives, S[fm][4], S[fm][5]]:
+                bef = [actives, S[fm][4], S[fm][5], S.get("__marks__", [])]
+                if aft != bef:
                     return ("refused-transition-changed-state", "tick %d: refused transition %s -> %s of %s changed "
-                            "(outline, elapsed, recurred) from %s to %s" % (tk, near, far, fm,
-                                                                           [actives, S[fm][4], S[fm][5]], aft))
+                            "(outline, elapsed, recurred, marks written by transit actions) from %s to %s"
+                            % (tk, near, far, fm, bef, aft))
+        elif e[0] == "suspend" and e[8] is not None and len(e) > 11:
+            _, tk, fm, main, aux, S, nk, p0, p1, res, aft, end = e
+            nested = orc[i + 1:end]
+            if S[aux][3] and not any(x[0] == "enterAll" and x[2] == aux for x in nested):
+                # the auxiliary was idle (done flag set) and the attempt did not start it: a refused start
+                bef = [S[fm][1], S[fm][4], S[fm][5], S.get("__marks__", [])]
+                if ob["trace"][p0:p1] or aft != bef:
+                    return ("refused-condaux-acted", "tick %d: the refused start of conditional auxiliary %s of frame %s "
+                            "of %s ran actions %s / changed (outline, elapsed, recurred, marks) from %s to %s"
+                            % (tk, aux, main, fm, ob["trace"][p0:p1][:4], bef, aft))
         elif e[0] == "enterAll" and e[3]:
             why = start_ok(prog, e[4], e[2])
             if why:
